@@ -1,7 +1,7 @@
 (* Properties/C05.v -- Decoding untrusted input never panics or hangs. *)
 From Coq Require Import Arith ZArith NArith List Bool.
 From DM Require Import Generated.Symbols Spec.GF256 Model.Outcome Model.Dec Model.Eci Model.Render Model.RSDec
-  Model.Placement Model.Api Proofs.DecProofs Proofs.RenderProofs Proofs.RSDecProofs Proofs.PlacementProofs Proofs.DecodeGlue.
+  Model.Placement Model.Api Proofs.DecProofs Proofs.RenderProofs Proofs.RSDecProofs Proofs.PlacementProofs Proofs.DecodeGlue Proofs.RSTotal Proofs.DecodeSafe.
 Import ListNotations.
 
 (* In the model every Rust panic site (assert!, unwrap, slice index, arithmetic overflow of the
@@ -23,10 +23,25 @@ Theorem C05_try_from_bits : forall bits w, no_panic (try_from_bits bits w) /\ no
 Proof. intros bits w. rewrite try_from_bits_fast_eq. split; apply try_from_bits_no_panic. Qed.
 Print Assumptions C05_try_from_bits.
 
-(* error correction: what is proved is the outcome on success (C09) and that a word without errors is
-   returned unchanged; that no received word can make the Levinson-Durbin / Bjoerck-Pereyra code index out
-   of range, divide by zero or trip its own debug assertions is NOT proved -- see DESIGN.md and the
-   correspondence / fault-enumeration part of the check. *)
+(* error correction.  For EVERY received word of the symbol's length, the syndrome computation, the Levinson-Durbin
+   locator search (initial triangular solve, regular and singular steps), the Chien search, the Bjoerck-Pereyra solve
+   and the application of the corrections stay inside their slices (no PIndex), never divide by zero (no PDivZero: the
+   pivots are non-zero by the branch conditions, the reported roots are non-zero and pairwise different by a sweep over
+   the antilog table), never underflow (POverflow), never trip a length / range assertion (PAssert) and terminate
+   (POutOfFuel).  The one panic site that is not excluded is PAssertLD: the cfg!(debug_assertions) block that re-checks
+   the identities (3)/(4) of the recursion after each iteration; it is compiled out of release builds, and that it never
+   fires in debug builds (correctness of the recursion) is decided per case by the differential / fault-enumeration part
+   of the check.  `safe o` is: forall p, o = Panic p -> p = PAssertLD. *)
+Theorem C05_rs_decoder : forall s cw p,
+  length cw = N.to_nat (num_data_codewords s + num_ecc_blocks s * num_ecc_per_block s) ->
+  RSDec.decode cw s = Panic p -> p = PAssertLD.
+Proof. intros s cw p L. exact (decode_safe s cw L p). Qed.
+Print Assumptions C05_rs_decoder.
+
+Theorem C05_rs_locator : forall syn, safe (find_inv_error_locations_levinson_durbin syn).
+Proof. exact levinson_durbin_safe. Qed.
+Print Assumptions C05_rs_locator.
+
 Theorem C05_rs_success_shape : forall s cw c',
   length cw = N.to_nat (num_data_codewords s + num_ecc_blocks s * num_ecc_per_block s) -> Forall byte cw ->
   RSDec.decode cw s = Ok c' -> length c' = length cw /\ Forall byte c'.
@@ -47,6 +62,18 @@ Theorem C05_decode_glue : forall pixels width p, dm_decode pixels width = Panic 
     Placement.codewords (zh size) (zw size) entries = Ok cw /\ RSDec.decode cw size = Panic p.
 Proof. exact dm_decode_panic_source. Qed.
 Print Assumptions C05_decode_glue.
+
+(* non-vacuity: a word with two errors runs through locator search, Chien search and Bjoerck-Pereyra and is corrected;
+   a word with too many errors is an error value, not a panic *)
+Example C05_rs_example :
+  RSDec.decode [23; 40; 11; 0; 207; 37; 0; 81]%N Square10 = Ok [23; 40; 11; 255; 207; 37; 244; 81]%N /\
+  RSDec.decode [1; 2; 3; 4; 5; 6; 7; 8]%N Square10 = Err ErrorsOutsideRange.
+Proof. split; vm_compute; reflexivity. Qed.
+
+(* the same for the whole-symbol entry point: for EVERY pixel array and width *)
+Theorem C05_decode_symbol : forall pixels width p, dm_decode pixels width = Panic p -> p = PAssertLD.
+Proof. exact dm_decode_safe. Qed.
+Print Assumptions C05_decode_symbol.
 
 (* non-vacuity / the former witnesses of the defects *)
 Example C05_examples :
